@@ -166,31 +166,41 @@ theorem impls_erase {S : Schema} (hu : (S.types.map (·.name)).Nodup) {F : Feats
 
 theorem Accepted.nodup {S : Schema} (h : Accepted S = true) : (S.types.map (·.name)).Nodup := by
   simp only [Accepted, Bool.and_eq_true, decide_eq_true_eq] at h
-  exact h.1.1.1.1.1
+  exact h.1.1.1.1.1.1
 
 theorem Accepted.typeOk {S : Schema} (h : Accepted S = true) {t : TypeDef} (ht : t ∈ S.types) :
     S.typeOk t = true := by
   simp only [Accepted, Bool.and_eq_true, List.all_eq_true] at h
-  exact h.1.1.1.1.2 t ht
+  exact h.1.1.1.1.1.2 t ht
 
 theorem Accepted.noIntrospectionNames {S : Schema} (h : Accepted S = true) {t : TypeDef} (ht : t ∈ S.types) :
     introspectionKind t.name = none := by
   simp only [Accepted, Bool.and_eq_true, List.all_eq_true] at h
-  simpa using h.1.1.1.2 t ht
+  simpa using h.1.1.1.1.2 t ht
 
 theorem Accepted.queryKind {S : Schema} (h : Accepted S = true) : S.kindOf S.query = some .object := by
   simp only [Accepted, Bool.and_eq_true, beq_iff_eq] at h
-  exact h.1.1.2
+  exact h.1.1.1.2
 
 theorem Accepted.mutationKind {S : Schema} (h : Accepted S = true) {m : String} (hm : S.mutation = some m) :
     S.kindOf m = some .object := by
   simp only [Accepted, Bool.and_eq_true, beq_iff_eq, hm] at h
-  exact h.1.2
+  exact h.1.1.2
 
 theorem Accepted.subscriptionKind {S : Schema} (h : Accepted S = true) {m : String} (hm : S.subscription = some m) :
     S.kindOf m = some .object := by
   simp only [Accepted, Bool.and_eq_true, beq_iff_eq, hm] at h
-  exact h.2
+  exact h.1.2
+
+theorem Accepted.directivesNodup {S : Schema} (h : Accepted S = true) : (S.directives.map (·.name)).Nodup := by
+  simp only [Accepted, Bool.and_eq_true, decide_eq_true_eq] at h
+  exact h.2.1
+
+theorem Accepted.directiveOk {S : Schema} (h : Accepted S = true) {d : DirectiveDef} (hd : d ∈ S.directives) :
+    (d.args.map (·.name)).Nodup ∧ ∀ a ∈ d.args, wfRef a.ty = true ∧ S.isInputRef a.ty = true := by
+  simp only [Accepted, Bool.and_eq_true, decide_eq_true_eq, List.all_eq_true] at h
+  have := h.2.2 d hd
+  exact ⟨this.1, fun a ha => this.2 a ha⟩
 
 theorem visible_of_root {S : Schema} {F : Feats} {n : String} (hk : S.kindOf n = some .object) (hq : S.reqOf n = []) :
     S.visible F n = true := by
@@ -612,18 +622,19 @@ theorem typeByName_closed {n p : String} (h : typeByName S F n = some p) : S.vis
     · simp [hr] at h
 
 theorem query_visible (hA : Accepted S = true) (hR : RootsUngated S = true) : S.visible F S.query = true := by
-  simp only [RootsUngated, Bool.and_eq_true, beq_iff_eq] at hR
-  exact visible_of_root (Accepted.queryKind hA) hR.1.1
+  simp only [RootsUngated, beq_iff_eq] at hR
+  exact visible_of_root (Accepted.queryKind hA) hR
 
-theorem mutation_visible (hA : Accepted S = true) (hR : RootsUngated S = true) {m : String}
-    (hm : S.mutation = some m) : S.visible F m = true := by
-  simp only [RootsUngated, Bool.and_eq_true, beq_iff_eq, hm] at hR
-  exact visible_of_root (Accepted.mutationKind hA hm) hR.1.2
-
-theorem subscription_visible (hA : Accepted S = true) (hR : RootsUngated S = true) {m : String}
-    (hm : S.subscription = some m) : S.visible F m = true := by
-  simp only [RootsUngated, Bool.and_eq_true, beq_iff_eq, hm] at hR
-  exact visible_of_root (Accepted.subscriptionKind hA hm) hR.2
+/-- A root type the view reports passed the feature test. -/
+theorem filtered_root_visible {o : Option String} {m : String} (hm : o.filter (S.visible F) = some m) :
+    S.visible F m = true := by
+  cases o with
+  | none => simp [Option.filter] at hm
+  | some x =>
+    by_cases hv : S.visible F x = true
+    · simp only [Option.filter, hv, ↓reduceIte, Option.some.injEq] at hm
+      subst hm; exact hv
+    · simp [Option.filter, hv] at hm
 
 end closure
 
@@ -637,6 +648,7 @@ def NodeVis (S : Schema) (F : Feats) : Node → Prop
   | .field s => SigVis S F s
   | .input a => S.visible F a.ty.base = true
   | .enumv _ => True
+  | .directive d => ∀ a ∈ d.args, S.visible F a.ty.base = true
 
 theorem optArr_congr {α} {f g : α → Json} {o : Option (List α)}
     (h : ∀ l, o = some l → ∀ x ∈ l, f x = g x) : optArr f o = optArr g o := by
@@ -647,21 +659,65 @@ theorem optArr_congr {α} {f g : α → Json} {o : Option (List α)}
     congr 1
     exact List.map_congr_left (h l rfl)
 
-theorem erase_mutation {S : Schema} {F : Feats} (hA : Accepted S = true) (hR : RootsUngated S = true) :
-    (erase S F).mutation = S.mutation := by
-  unfold erase
-  cases hm : S.mutation with
-  | none => simp
-  | some m => simp [Option.filter, mutation_visible hA hR hm]
+theorem filter_filter_root {S : Schema} {F : Feats} (hu : (S.types.map (·.name)).Nodup) (o : Option String) :
+    (o.filter (S.visible F)).filter ((erase S F).visible top) = o.filter (S.visible F) := by
+  have hvis : (erase S F).visible top = S.visible F := funext (visible_erase hu F)
+  rw [hvis]
+  cases o with
+  | none => rfl
+  | some x => by_cases hv : S.visible F x = true <;> simp [Option.filter, hv]
 
-theorem erase_subscription {S : Schema} {F : Feats} (hA : Accepted S = true) (hR : RootsUngated S = true) :
-    (erase S F).subscription = S.subscription := by
-  unfold erase
-  cases hm : S.subscription with
-  | none => simp
-  | some m => simp [Option.filter, subscription_visible hA hR hm]
+/-- The mutation root the view reports: the same against the erased schema. -/
+theorem erase_mutation {S : Schema} {F : Feats} (hu : (S.types.map (·.name)).Nodup) :
+    (view (erase S F) top).mutationType = (view S F).mutationType :=
+  filter_filter_root hu S.mutation
+
+theorem erase_subscription {S : Schema} {F : Feats} (hu : (S.types.map (·.name)).Nodup) :
+    (view (erase S F) top).subscriptionType = (view S F).subscriptionType :=
+  filter_filter_root hu S.subscription
+
+/-! ### directives (hypothesis `DirArgsVisible`: open findings F-10g / F-13g) -/
+
+theorem dirArgs_visible {S : Schema} {F : Feats} (hD : DirArgsVisible S F = true) {d : DirectiveDef}
+    (hd : d ∈ S.directives) : ∀ a ∈ d.args, S.visible F a.ty.base = true := by
+  simp only [DirArgsVisible, List.all_eq_true] at hD
+  exact hD d hd
+
+theorem erase_directives {S : Schema} {F : Feats} (hD : DirArgsVisible S F = true) :
+    (erase S F).directives = S.directives := by
+  show S.directives.map (fun d => { d with args := d.args.filter (fun a => S.visible F a.ty.base) }) = S.directives
+  have : ∀ d ∈ S.directives,
+      ({ d with args := d.args.filter (fun a => S.visible F a.ty.base) } : DirectiveDef) = d := by
+    intro d hd
+    have : d.args.filter (fun a => S.visible F a.ty.base) = d.args :=
+      List.filter_eq_self.mpr (dirArgs_visible hD hd)
+    rw [this]
+  rw [List.map_congr_left this, List.map_id']
+
+theorem directivesListing_erase {S : Schema} {F : Feats} (hD : DirArgsVisible S F = true) :
+    directivesListing (erase S F) = directivesListing S := erase_directives hD
+
+theorem directiveArgs_erase {S : Schema} {F : Feats} (hD : DirArgsVisible S F = true) (dn : String) :
+    directiveArgs (erase S F) dn = directiveArgs S dn := by
+  unfold directiveArgs; rw [erase_directives hD]
+
+/-- No directive argument type carries features ⇒ they are visible to every request. -/
+theorem dirArgsVisible_of_ungated {S : Schema} (hA : Accepted S = true) (hU : DirArgsUngated S = true) (F : Feats) :
+    DirArgsVisible S F = true := by
+  simp only [DirArgsVisible, DirArgsUngated, List.all_eq_true, beq_iff_eq] at hU ⊢
+  intro d hd a ha
+  have hin := ((Accepted.directiveOk hA hd).2 a ha).2
+  have hk := isInputRef_isSome hin
+  have hq := hU d hd a ha
+  unfold Schema.kindOf at hk
+  unfold Schema.reqOf at hq
+  unfold Schema.visible
+  cases h : S.find? a.ty.base with
+  | none => simp [h] at hk
+  | some t => simp_all [reqOk]
 
 theorem evalHead_erase {S : Schema} {F : Feats} (hA : Accepted S = true) (hR : RootsUngated S = true)
+    (hD : DirArgsVisible S F = true)
     (tag arg : String) (k k' : Node → List (String × Json))
     (hk : ∀ n, NodeVis S F n → k n = k' n) (n : Node) (hn : NodeVis S F n) :
     evalHead (view S F) tag arg k n = evalHead (view (erase S F) top) tag arg k' n := by
@@ -674,7 +730,15 @@ theorem evalHead_erase {S : Schema} {F : Feats} (hA : Accepted S = true) (hR : R
     | none => simp only [hs]
     | some p => simp only [hk _ (show NodeVis S F (.ty (.named p)) from typeByName_closed htb), hs]
   | schema =>
-    simp only [evalHead, view, typesListing_erase, erase_mutation hA hR, erase_subscription hA hR]
+    have hmE := erase_mutation (S := S) (F := F) hu
+    have hsE := erase_subscription (S := S) (F := F) hu
+    simp only [view] at hmE hsE
+    simp only [evalHead, view, typesListing_erase, hmE, hsE, directivesListing_erase hD]
+    have hdl : (directivesListing S).map (fun d => Json.obj (k (.directive d))) =
+        (directivesListing S).map (fun d => Json.obj (k' (.directive d))) :=
+      List.map_congr_left (fun d hd => by
+        rw [hk _ (show NodeVis S F (.directive d) from dirArgs_visible hD hd)])
+    rw [hdl]
     have h1 : (typesListing S F).map (fun p => Json.obj (k (.ty (.named p)))) =
         (typesListing S F).map (fun p => Json.obj (k' (.ty (.named p)))) :=
       List.map_congr_left (fun p hp => by rw [hk _ (show NodeVis S F (.ty (.named p)) from typesListing_closed hu p hp)])
@@ -682,17 +746,17 @@ theorem evalHead_erase {S : Schema} {F : Feats} (hA : Accepted S = true) (hR : R
       hk _ (show NodeVis S F (.ty (.named S.query)) from query_visible hA hR)
     have h3 : (erase S F).query = S.query := rfl
     rw [h1, h2, h3]
-    have hM : ∀ m, S.mutation = some m → k (.ty (.named m)) = k' (.ty (.named m)) :=
-      fun m hm => hk _ (show NodeVis S F (.ty (.named m)) from mutation_visible hA hR hm)
-    have hS : ∀ m, S.subscription = some m → k (.ty (.named m)) = k' (.ty (.named m)) :=
-      fun m hm => hk _ (show NodeVis S F (.ty (.named m)) from subscription_visible hA hR hm)
-    cases hm : S.mutation with
+    have hM : ∀ m, S.mutation.filter (S.visible F) = some m → k (.ty (.named m)) = k' (.ty (.named m)) :=
+      fun m hm => hk _ (show NodeVis S F (.ty (.named m)) from filtered_root_visible hm)
+    have hS : ∀ m, S.subscription.filter (S.visible F) = some m → k (.ty (.named m)) = k' (.ty (.named m)) :=
+      fun m hm => hk _ (show NodeVis S F (.ty (.named m)) from filtered_root_visible hm)
+    cases hm : S.mutation.filter (S.visible F) with
     | none =>
-      cases hs : S.subscription with
+      cases hs : S.subscription.filter (S.visible F) with
       | none => rfl
       | some s => simp only [hS s hs]
     | some m =>
-      cases hs : S.subscription with
+      cases hs : S.subscription.filter (S.visible F) with
       | none => simp only [hM m hm]
       | some s => simp only [hM m hm, hS s hs]
   | ty t =>
@@ -728,15 +792,21 @@ theorem evalHead_erase {S : Schema} {F : Feats} (hA : Accepted S = true) (hR : R
     rw [this]
   | input a => simp only [evalHead, hk _ (show NodeVis S F (.ty a.ty) from hn)]
   | enumv e => rfl
+  | directive d =>
+    have hd : ∀ a ∈ d.args, S.visible F a.ty.base = true := hn
+    simp only [evalHead]
+    have : d.args.map (fun a => Json.obj (k (.input a))) = d.args.map (fun a => Json.obj (k' (.input a))) :=
+      List.map_congr_left (fun a ha => by rw [hk _ (show NodeVis S F (.input a) from hd a ha)])
+    rw [this]
 
 theorem evalSels_erase {S : Schema} {F : Feats} (hA : Accepted S = true) (hR : RootsUngated S = true)
-    (sels : Sels) : ∀ n, NodeVis S F n → evalSels (view S F) sels n = evalSels (view (erase S F) top) sels n := by
+    (hD : DirArgsVisible S F = true) (sels : Sels) : ∀ n, NodeVis S F n → evalSels (view S F) sels n = evalSels (view (erase S F) top) sels n := by
   induction sels with
   | nil => intro n _; rfl
   | cons tag arg sub rest ihs ihr =>
     intro n hn
     simp only [evalSels]
-    rw [evalHead_erase hA hR tag arg _ _ ihs n hn, ihr n hn]
+    rw [evalHead_erase hA hR hD tag arg _ _ ihs n hn, ihr n hn]
 
 /-! ### clients: validation walk, execution walk -/
 
@@ -1185,7 +1255,7 @@ theorem accepted_erase (hA : Accepted S = true) (hR : RootsUngated S = true) : A
   have hu := Accepted.nodup hA
   have hq : S.notHidden F S.query = true := notHidden_of_visible (query_visible hA hR)
   simp only [Accepted, Bool.and_eq_true, List.all_eq_true, decide_eq_true_eq, beq_iff_eq]
-  refine ⟨⟨⟨⟨⟨?_, ?_⟩, ?_⟩, ?_⟩, ?_⟩, ?_⟩
+  refine ⟨⟨⟨⟨⟨⟨?_, ?_⟩, ?_⟩, ?_⟩, ?_⟩, ?_⟩, ⟨?_, ?_⟩⟩
   · have : (erase S F).types.map (·.name) = (S.types.filter (fun t => reqOk F t.req)).map (·.name) := by
       simp [erase, List.map_map, Function.comp_def, eraseType_name]
     rw [this]
@@ -1201,20 +1271,55 @@ theorem accepted_erase (hA : Accepted S = true) (hR : RootsUngated S = true) : A
     rfl
   · rw [show (erase S F).query = S.query from rfl, kindOf_erase hu hq]
     exact Accepted.queryKind hA
-  · rw [erase_mutation hA hR]
-    cases hm : S.mutation with
-    | none => trivial
+  · show (match S.mutation.filter (S.visible F) with
+      | none => true
+      | some m => (erase S F).kindOf m == some Kind.object) = true
+    cases hm : S.mutation.filter (S.visible F) with
+    | none => rfl
     | some m =>
+      have hv := filtered_root_visible hm
+      have hsome : S.mutation = some m := by
+        cases hmm : S.mutation with
+        | none => simp [hmm, Option.filter] at hm
+        | some x =>
+          by_cases hx : S.visible F x = true
+          · simp only [hmm, Option.filter, hx, ↓reduceIte, Option.some.injEq] at hm; rw [hm]
+          · simp [hmm, Option.filter, hx] at hm
       simp only
-      rw [kindOf_erase hu (notHidden_of_visible (mutation_visible hA hR hm))]
-      simpa using Accepted.mutationKind hA hm
-  · rw [erase_subscription hA hR]
-    cases hm : S.subscription with
-    | none => trivial
+      rw [kindOf_erase hu (notHidden_of_visible hv)]
+      simpa using Accepted.mutationKind hA hsome
+  · show (match S.subscription.filter (S.visible F) with
+      | none => true
+      | some m => (erase S F).kindOf m == some Kind.object) = true
+    cases hm : S.subscription.filter (S.visible F) with
+    | none => rfl
     | some m =>
+      have hv := filtered_root_visible hm
+      have hsome : S.subscription = some m := by
+        cases hmm : S.subscription with
+        | none => simp [hmm, Option.filter] at hm
+        | some x =>
+          by_cases hx : S.visible F x = true
+          · simp only [hmm, Option.filter, hx, ↓reduceIte, Option.some.injEq] at hm; rw [hm]
+          · simp [hmm, Option.filter, hx] at hm
       simp only
-      rw [kindOf_erase hu (notHidden_of_visible (subscription_visible hA hR hm))]
-      simpa using Accepted.subscriptionKind hA hm
+      rw [kindOf_erase hu (notHidden_of_visible hv)]
+      simpa using Accepted.subscriptionKind hA hsome
+  · have : (erase S F).directives.map (·.name) = S.directives.map (·.name) := by
+      simp [erase, List.map_map, Function.comp_def]
+    rw [this]
+    exact Accepted.directivesNodup hA
+  · intro d' hd'
+    have hd'' : d' ∈ S.directives.map (fun d => { d with args := d.args.filter (fun a => S.visible F a.ty.base) }) := hd'
+    obtain ⟨d, hd, rfl⟩ := List.mem_map.mp hd''
+    have hok := Accepted.directiveOk hA hd
+    refine ⟨sublist_map_nodup _ List.filter_sublist hok.1, ?_⟩
+    intro a ha
+    have ha' := List.mem_filter.mp ha
+    have := hok.2 a ha'.1
+    refine ⟨this.1, ?_⟩
+    rw [isInputRef_erase hu ha'.2]
+    exact this.2
 
 end eraseAccepted
 
